@@ -29,6 +29,19 @@ theorem index_sane_nodes (rootOp : Ω) (m : Meta) (s : St Ω) (hr : C04.Reach ro
   obtain ⟨h0, hk⟩ := parents_listed_earlier s hh hroot.noParent hroot.only order hl
   exact ⟨(h0 0).1, fun p => (h0 p).2, hk⟩
 
+/-- **Index sanity, nodes, unconditionally**: for every HUGR built through the API (node arguments
+    live), `_to_serial` lists every live node exactly once (`order` is a duplicate-free enumeration
+    of the live nodes), node 0 is the root written as its own parent, and every other node's parent is
+    a node listed earlier. -/
+theorem index_sane_nodes_exact (rootOp : Ω) (m : Meta) (s : St Ω) (hr : C04.ReachT rootOp m s) :
+    ∃ order, hierarchyOrder s = .ok order ∧ order.Nodup ∧ (∀ c, c ∈ order ↔ ∃ d, getNode s c = .ok d) ∧
+      order[0]? = some s.root ∧
+      (∀ p, parentIndex s order s.root = .ok p → p = 0) ∧
+      (∀ k i p, 0 < k → order[k]? = some i → parentIndex s order i = .ok p → p < k) := by
+  obtain ⟨order, hl, ho, hnd, _, hmem⟩ := C04.hierarchy_order_exact rootOp m s hr
+  obtain ⟨a, b, c⟩ := index_sane_nodes rootOp m s (C04.reachT_reach rootOp m s hr) order hl
+  exact ⟨order, ho, hnd, hmem, a, b, c⟩
+
 /-- The parent index analysed above is exactly the one handed to the operation encoder. -/
 theorem node_parent_field (c : OpCodec Ω) (s : St Ω) (order : List Nat) (i : Nat) (r : Json × Option Meta)
     (h : serialNode c s order i = .ok r) :
